@@ -428,6 +428,12 @@ def main(argv):
     except Infra as e:
         print(f"INFRA-ERROR property={prop}: {e}", file=sys.stderr)
         return 2
+    except Exception as e:  # a crash of the machinery is never a verdict: exit 2, no VIOLATION line
+        import traceback
+
+        traceback.print_exc()
+        print(f"INFRA-ERROR property={prop}: check crashed: {type(e).__name__}: {str(e)[:300]}", file=sys.stderr)
+        return 2
 
 
 def split_known(prop, concrete):
